@@ -94,7 +94,7 @@ def cmp_util(case, impl_list, reply, kind):
     return None
 
 
-def _oracle(case, est=None):
+def _oracle(case, est=None, tol=1e-12):
     """per-episode-vs-whole and time-window locality, directly on the implementation (float data)"""
     try:
         if est is None:
@@ -117,20 +117,20 @@ def _oracle(case, est=None):
         Ta = est.transform(alone)[:, e:]
         if l not in eps_t:
             return f'episode {l} vanished'
-        if Ta.shape != eps_t[l].shape or not np.allclose(Ta, eps_t[l], rtol=1e-12, atol=1e-12):
+        if Ta.shape != eps_t[l].shape or not np.allclose(Ta, eps_t[l], rtol=tol, atol=tol):
             return f'episode {l}: transform of the whole matrix differs from transform of the episode alone'
         # window locality for the last output sample
         if Xe.shape[0] > m:
             win = st.ref_combine([(l, Xe[-m:, :])], ep)
             Tw = est.transform(win)[:, e:]
-            if Tw.shape[0] != 1 or not np.allclose(Tw[0], eps_t[l][-1], rtol=1e-12, atol=1e-12):
+            if Tw.shape[0] != 1 or not np.allclose(Tw[0], eps_t[l][-1], rtol=tol, atol=tol):
                 return f'episode {l}: last lifted sample is not a function of the last min_samples_={m} samples'
     Xr = est.inverse_transform(Xt)
     eps_r = st.episodes(Xr, ep)
     for l in eps_t:
         alone = st.ref_combine([(l, eps_t[l])], ep)
         Ra = est.inverse_transform(alone)[:, e:]
-        if l not in eps_r or Ra.shape != eps_r[l].shape or not np.allclose(Ra, eps_r[l], rtol=1e-12, atol=1e-12):
+        if l not in eps_r or Ra.shape != eps_r[l].shape or not np.allclose(Ra, eps_r[l], rtol=tol, atol=tol):
             return f'episode {l}: inverse_transform of the whole matrix differs from the episode alone'
     if ep:
         # HISTORY: the SAME array object is transformed, its episode column is rewritten in place (episodes re-cut and
@@ -160,17 +160,207 @@ def _oracle(case, est=None):
             if Xe.shape[0] < m:
                 continue
             Ta = est.transform(st.ref_combine([(l, Xe)], True))[:, 1:]
-            if l not in eps1_t or Ta.shape != eps1_t[l].shape or not np.allclose(Ta, eps1_t[l], rtol=1e-12, atol=1e-12):
+            if l not in eps1_t or Ta.shape != eps1_t[l].shape or not np.allclose(Ta, eps1_t[l], rtol=tol, atol=tol):
                 return (f'after rewriting the episode column in place, episode {l} of transform(X) differs from the transform '
                         f'of that episode alone')
     return None
 
 
-def oracle(case, est=None):
+# ----------------------------------------------------------------------------- the convenience routes
+# lift / lift_state / lift_input / retract / retract_state / retract_input accept an `episode_feature` flag that may differ from
+# the one the estimator was fitted with; whatever the combination, the rows returned for a label must be what that episode
+# alone gives. The reference goes through transform / inverse_transform of ONE episode in the estimator's own format (that
+# base route is itself checked by `_oracle`), with the padding / stripping the documentation of the route describes.
+
+LIFT_ROUTES = ('lift', 'lift_state', 'lift_input')
+RETRACT_ROUTES = ('retract', 'retract_state', 'retract_input')
+
+
+def labelled_matrix(case, m):
+    """the case's data as a matrix WITH a label column; an unlabelled case becomes two episodes (labels 3 then 1, not
+    ascending) when it is long enough for both halves to hold `m` samples, one episode labelled 0 otherwise"""
+    X = np.array(case['rows'], dtype=float)
+    if case['ep']:
+        return X
+    n = X.shape[0]
+    lab = np.zeros((n, 1))
+    if n >= 2 * m:
+        lab[:n // 2, 0] = 3
+        lab[n // 2:, 0] = 1
+    return np.hstack((lab, X))
+
+
+def first_appearance(X):
+    seen = []
+    for v in X[:, 0]:
+        if int(v) not in seen:
+            seen.append(int(v))
+    return seen
+
+
+def _route_arg(route, B, nx, nso):
+    """columns of an (unlabelled) full block that the route takes"""
+    if route == 'lift_state':
+        return B[:, :nx]
+    if route == 'retract_state':
+        return B[:, :nso]
+    if route == 'retract_input':
+        return B[:, nso:]
+    return B
+
+
+def _route_alone(est, route, A):
+    """reference: ONE episode `A` (no label column; already restricted to the columns the route takes) through the base
+    route of the estimator in the estimator's own format"""
+    e = 1 if est.episode_feature_ else 0
+    nsi, nso = est.n_states_in_, est.n_states_out_
+    z = lambda k: np.zeros((A.shape[0], k))
+    nat = lambda B: st.ref_combine([(0, B)], bool(est.episode_feature_))
+    if route == 'lift':
+        return est.transform(nat(A))[:, e:]
+    if route == 'lift_state':
+        return est.transform(nat(np.hstack((A, z(est.n_inputs_in_)))))[:, e:][:, :nso]
+    if route == 'lift_input':
+        return est.transform(nat(A))[:, e:][:, nso:]
+    if route == 'retract':
+        return est.inverse_transform(nat(A))[:, e:]
+    if route == 'retract_state':
+        return est.inverse_transform(nat(np.hstack((A, z(est.n_inputs_out_)))))[:, e:][:, :nsi]
+    if route == 'retract_input':
+        return est.inverse_transform(nat(np.hstack((z(nso), A))))[:, e:][:, nsi:]
+    raise ValueError(route)
+
+
+def _routes_oracle(case, tol=1e-12):
+    CLOSE = dict(rtol=tol, atol=tol)
+    spec, nx, nu = case['spec'], case['nx'], case['nu']
+    body = np.array(case['rows'], dtype=float)
+    if case['ep']:
+        body = body[:, 1:]
+    ests = {}
     try:
-        return _oracle(case, est)
+        ests[False] = pipes.fit(spec, st.in_form(body, case.get('form')), nu, False)
+    except Exception:
+        pass
+    m = ests[False].min_samples_ if False in ests else pipes.loss(spec) + 1
+    XL = labelled_matrix(case, m)
+    try:
+        ests[True] = pipes.fit(spec, st.in_form(XL, case.get('form')), nu, True)
+    except Exception:
+        pass
+    order = first_appearance(XL)
+    eps = st.episodes(XL, True)
+    for fitted_with, est in ests.items():
+        m = est.min_samples_
+        if any(Xe.shape[0] < m for Xe in eps.values()):
+            continue            # an episode too short to be lifted: outside the statement
+        nso = est.n_states_out_
+        tag = f"estimator fitted with episode_feature={fitted_with}"
+        # lifted episodes (reference) - they are also the data of the retract routes
+        try:
+            lifted = {l: _route_alone(est, 'lift', eps[l]) for l in order}
+        except Exception:
+            continue
+        data = {'lift': (XL, eps), 'retract': (st.ref_combine([(l, lifted[l]) for l in order], True), lifted)}
+        for route in LIFT_ROUTES + RETRACT_ROUTES:
+            M, blocks = data['lift' if route in LIFT_ROUTES else 'retract']
+            args = {l: _route_arg(route, blocks[l], nx, nso) for l in order}
+            whole = _route_arg(route, M[:, 1:], nx, nso)
+            try:
+                want = {l: _route_alone(est, route, args[l]) for l in order}
+                want_whole = _route_alone(est, route, whole)
+            except Exception:
+                continue        # the base route does not accept this (padded) data: nothing to compare with
+            f = getattr(est, route)
+            for flag in (True, False, None):
+                labelled = fitted_with if flag is None else flag
+                where = f'{route}(X, episode_feature={flag}), {tag}'
+                try:
+                    arg = np.hstack((M[:, [0]], whole)) if labelled else whole
+                    got = np.asarray(f(st.in_form(arg, case.get('form')), episode_feature=flag))
+                except Exception as ex:
+                    return f'{where}: raised {type(ex).__name__}: {str(ex)[:160]} (each episode alone is accepted)'
+                if not labelled:
+                    if got.shape != want_whole.shape or not np.allclose(got, want_whole, **CLOSE):
+                        return (f'{where}: the rows as ONE unlabelled episode give {got.shape}, the base route on that '
+                                f'episode gives {want_whole.shape}' + ('' if got.shape != want_whole.shape else ' with other values'))
+                    continue
+                if got.ndim != 2 or got.shape[1] != 1 + want_whole.shape[1]:
+                    return f'{where}: result has shape {got.shape}, expected a label column and {want_whole.shape[1]} features'
+                try:
+                    got_eps = st.episodes(got, True)
+                except Exception:
+                    return f'{where}: the label column of the result does not hold integer labels'
+                if set(got_eps) != set(want):
+                    return f'{where}: labels returned {sorted(got_eps)}, labels of the data {sorted(want)}'
+                for l in order:
+                    if got_eps[l].shape != want[l].shape:
+                        return (f'{where}: episode {l} comes back with {got_eps[l].shape[0]} rows, that episode alone gives '
+                                f'{want[l].shape[0]} (min_samples_={m}, {len(order)} episodes)')
+                    if not np.allclose(got_eps[l], want[l], **CLOSE):
+                        k = int(np.flatnonzero(~np.all(np.isclose(got_eps[l], want[l], **CLOSE), axis=1))[0])
+                        return (f'{where}: row {k} of episode {l} differs from what that episode alone gives '
+                                f'(min_samples_={m}, {len(order)} episodes)')
+    return None
+
+
+def routes_oracle(case, tol=1e-12):
+    try:
+        return _routes_oracle(case, tol)
     except Exception as ex:
-        return f'transform / inverse_transform raised {type(ex).__name__}: {ex}'
+        return f'lift / retract routes: {type(ex).__name__}: {ex}'
+
+
+def route_categories(case):
+    """coverage keys of the route oracle for one case"""
+    n_eps = len({r[0] for r in case['rows']}) if case['ep'] else (2 if len(case['rows']) >= 2 * (pipes.loss(case['spec']) + 1) else 1)
+    dep = 'episode-dependent stages' if pipes.loss(case['spec']) > 0 else 'sample-wise stages'
+    return [f"routes lift*/retract* x episode_feature flag (fitted with and without): {dep}, {'>=2 episodes' if n_eps >= 2 else '1 episode'}"]
+
+
+def rounding_noise(case):
+    """how far rounding-level changes of the data (relative / absolute 1e-15 and 1e-14: a few units in the last place) move
+    the implementation's OWN lifted output, relative to max(1, |value|). A lifting with a large gain (a Nystroem map fitted
+    on nearly repeated samples has a normalisation with entries 1e5 .. 1e6) turns the last-bit differences between the
+    evaluation of one row and of a batch of rows into 1e-11 .. 1e-9"""
+    worst = 0.0
+    try:
+        est = st.fit_case(case)
+        X = np.array(st.X_of(case), dtype=float)
+        e = 1 if case['ep'] else 0
+        base = est.transform(X)
+        for eps in (1e-15, -1e-15, 1e-14, -1e-14):
+            Z = X.copy()
+            Z[:, e:] = Z[:, e:] * (1 + eps) + eps
+            out = est.transform(Z)
+            if out.shape != base.shape:
+                return 0.0
+            d = np.abs(out - base) / np.maximum(1.0, np.abs(base))
+            d = d[np.isfinite(d)]
+            if d.size:
+                worst = max(worst, float(d.max()))
+    except Exception:
+        return 0.0
+    return worst
+
+
+def oracle(case, est=None):
+    def at(tol):
+        try:
+            why = _oracle(case, est, tol)
+        except Exception as ex:
+            return f'transform / inverse_transform raised {type(ex).__name__}: {ex}'
+        return why or routes_oracle(case, tol)
+    why = at(1e-12)
+    if why:
+        # every comparison is made at 1e-12. Only where that FAILS and the measured rounding noise of the lifting itself
+        # is above 1e-13 (so 1e-12 is within the rounding level of this fitted lifting, not a statement about episodes)
+        # are the values compared at 100 x that noise, never beyond 1e-6: mixing episodes, a wrong window or a wrong row
+        # changes values by their own order of magnitude. Shapes, labels and row counts are compared exactly throughout.
+        noise = rounding_noise(case)
+        if noise > 1e-13:
+            why = at(min(1e-6, max(1e-12, 100 * noise)))
+    return why
 
 
 def population_search(ctx):
@@ -188,12 +378,21 @@ def run(ctx):
     ctx.rule = ('layout-heavy generator: 1..4 episodes, lengths min_samples_..+4, labels like [7,0,3], block order '
                 'permuted, rows interleaved; random trees of all kinds; observations: row provenance '
                 '(model: dependency instance, implementation: single-row perturbation) for transform and '
-                'inverse_transform, exact values, and the episode utilities verbatim on integer data; '
+                'inverse_transform, exact values, and the episode utilities verbatim on integer data; every case is also '
+                'sent through the convenience routes lift / lift_state / lift_input / retract / retract_state / retract_input '
+                'with episode_feature = True, False and None on an estimator fitted WITH and one fitted WITHOUT an episode '
+                'feature (unlabelled cases are cut into two episodes labelled 3, 1); '
                 'non-trivial = at least one stage and two rows')
     ctx.explanation = ('theorems C03_* (matrix-level flow refines the per-episode meaning for every layout; slice '
                        'equivariance / window locality; utilities act per episode); correspondence on row '
                        'provenance, values and utilities; oracle: per-episode-vs-whole and window locality on the '
-                       'implementation with float data (rtol 1e-12)')
+                       'implementation with float data (rtol 1e-12); route oracle: for every route x flag x fitted-flag '
+                       'combination the rows returned for a label equal that episode alone through transform / '
+                       'inverse_transform in the estimator\'s own format (padding / stripping as documented), same labels, '
+                       'same row counts, and an unlabelled block is lifted as one episode; values are compared at 1e-12, and only where '
+                       'that fails AND the measured rounding noise of the fitted lifting (output movement under 1e-15 / 1e-14 '
+                       'changes of the data) exceeds 1e-13 are they compared at 100 x that noise (at most 1e-6); shapes, '
+                       'labels and row counts are always exact')
     ctx.proof_obligations('Properties.C03', THEOREMS)
     drv = ctx.get_driver()
     n = ctx.n(120, 1500)
@@ -268,6 +467,8 @@ def run(ctx):
                     ctx.mismatch(f'utility {kind}: {why}', c, None, rep[:120])
                     bad.append(c)
         fc = st.float_case(ctx.rng, c)
+        for key in route_categories(fc):
+            ctx.count(key)
         why = oracle(fc)
         if why:
             small = st.shrink(fc, lambda x: oracle(x))
